@@ -47,6 +47,26 @@ func pow(a, n int) int {
 // batch = one point (tmax at the point) or two points one unit apart (tmax one
 // unit after the last point).
 func alphabet(c Cfg, dts []int) []Step {
+	if c.Multi {
+		// every step once per sub-ID of the group (batch: the measurement name only)
+		subs := []int{0, 1, 2}
+		if c.Batch {
+			subs = []int{0, 2}
+		}
+		c2 := c
+		c2.Multi = false
+		var out []Step
+		for _, st := range alphabet(c2, dts) {
+			for _, sub := range subs {
+				s2 := Step{G: st.G, Pts: append([]Pt(nil), st.Pts...)}
+				for k := range s2.Pts {
+					s2.Pts[k].Sub = sub
+				}
+				out = append(out, s2)
+			}
+		}
+		return out
+	}
 	cl := classes(c)
 	var out []Step
 	if !c.Batch {
@@ -227,6 +247,15 @@ func plans(tp tierParams) []plan {
 	} {
 		add(c, one, tp.lcapFlap, tp.budEmit)
 	}
+	// 7. points on which a level / reset lambda fails to evaluate, at every position
+	add(Cfg{Has: has(F, F, T), Rst: has(F, F, T), H: 2, Errs: T}, one, tp.lcap, 800)
+	add(Cfg{Has: has(F, T, T), Rst: has(F, F, T), H: 2, Errs: T}, one, tp.lcap, 800)
+	add(Cfg{Has: has(F, F, T), Rst: has(F, F, T), H: 2, Errs: T, Batch: T}, one, tp.lcap, 800)
+	// 8. several alert IDs rendered within one group (ID template over the measurement
+	//    name and a tag the data is not grouped by)
+	add(Cfg{Has: has(F, F, T), H: 2, Multi: T}, one, 4, 1300)
+	add(Cfg{Has: has(F, F, T), Sco: T, H: 2, Multi: T}, one, 4, 1300)
+	add(Cfg{Has: has(F, F, T), H: 2, Multi: T, Batch: T}, one, 3, 1800)
 	// 6. inline handler (anonymous topic) besides the named topic, handlers keeping up
 	add(Cfg{Has: has(F, F, T), H: 2, Inline: T}, onetwo, tp.lcap, tp.budEmit/2)
 	add(Cfg{Has: has(F, T, T), Sco: T, H: 2, Inline: T}, one, tp.lcap, tp.budEmit/2)
@@ -268,6 +297,11 @@ func restartPlans(tp tierParams) []plan {
 		{Has: has(F, F, T), H: 2, Batch: T},
 		{Has: has(F, F, T), Sco: T, H: 2, Batch: T},
 		{Has: has(F, T, T), Sco: T, H: 2, Batch: T, All: T},
+		// inline handler + persisted topics: the new task restores the anonymous topic from
+		// the stored event states of ALL IDs of the chunk (durations 0 and non-0, any key order)
+		{Has: has(F, F, T), H: 2, Inline: T, Persist: T},
+		{Has: has(F, F, T), Sco: T, H: 2, Inline: T, Persist: T},
+		{Has: has(F, T, T), Sco: T, H: 2, Inline: T, Persist: T},
 	} {
 		dts := []int{1}
 		if c.Scod > 0 {
@@ -461,15 +495,28 @@ func Run(r *rt.Run) error {
 	jobs := make(chan *job, tp.workers)
 	order := make(chan *job, 2*tp.workers)
 	execs := make([]*Exec, tp.workers)
+	pexecs := make([]*Exec, tp.workers)
 	for w := range execs {
 		x, err := NewExec()
 		if err != nil {
 			return err
 		}
 		execs[w] = x
+		w := w
 		go func() {
 			for j := range jobs {
-				obs, rep := x.Run(j.cfg, j.seqs, j.ids, runOpts{Cut: j.cut})
+				ex := x
+				if j.cfg.Persist {
+					if pexecs[w] == nil {
+						px, err := NewExecPersist()
+						if err != nil {
+							rt.Fatalf("c01: persistent executor: %v", err)
+						}
+						pexecs[w] = px
+					}
+					ex = pexecs[w]
+				}
+				obs, rep := ex.Run(j.cfg, j.seqs, j.ids, runOpts{Cut: j.cut})
 				j.done <- chunkResult{obs, rep}
 			}
 		}()
@@ -575,7 +622,10 @@ func Run(r *rt.Run) error {
 		}
 	}
 	x := &Exec{Tasks: dx.Tasks, Points: dx.Points, Events: dx.Events, Forwarded: dx.Forwarded, InlineEvents: dx.InlineEvents}
-	for _, e := range execs {
+	for _, e := range append(execs, pexecs...) {
+		if e == nil {
+			continue
+		}
 		x.InlineEvents += e.InlineEvents
 		x.Tasks += e.Tasks
 		x.Points += e.Points
